@@ -1,5 +1,6 @@
 SPECIFICATION Spec
 CONSTANTS
   Alpha <- AllBytes
+  FirstAlpha <- AllBytes
   N = 2
 INVARIANTS Judge
